@@ -168,7 +168,7 @@ Definition bapply (b0 : base) (te : Z * ev) : base :=
   | EApi i call a1 a2 a3 a4 gid =>
       if (call =? aStop) || (call =? aStopCtx) then upd_inst b i (fun x => x <| io_stopping := true |>)
       else b
-  | EApiRet i call res err =>
+  | EApiRet i call res err _ =>
       if (call =? aStop) || (call =? aStopCtx) then
         if res =? 0 then upd_inst b i (fun x => x <| io_started := false |> <| io_stopping := false |> <| io_stopped := true |>)
         else if res =? 1 then upd_inst b i (fun x => x <| io_stopping := false |>)
